@@ -81,12 +81,10 @@ where
     OA: ObservationAttributes,
 {
     pub fn get(&self) -> Result<()> {
-        let res = self.receiver.recv();
-        if res.is_err() {
-            res?;
-            unreachable!();
+        match self.receiver.recv()? {
+            Results::MergeResult(res) => res,
+            _ => unreachable!(),
         }
-        Ok(())
     }
 
     pub fn is_ready(&self) -> bool {
